@@ -72,6 +72,16 @@ impl<D, E> Reader<D, E> {
     }
 }
 
+impl<D, E> Drop for Reader<D, E> {
+    fn drop(&mut self) {
+        // Nobody will consume the body any more (e.g. the client went away). Tell the writer, so
+        // it stops queueing chunks, and release what was queued.
+        let mut l = self.shared.lock().expect("not poisoned");
+        let _old = mem::replace(&mut l.state, SharedState::ReaderFused); // drop after unlocking.
+        drop(l);
+    }
+}
+
 impl<D, E> futures_core::Stream for Reader<D, E>
 where
     D: From<Vec<u8>>,
@@ -215,9 +225,6 @@ where
     }
 
     fn flush_helper(&mut self, dropping: bool) -> Result<(), ()> {
-        if self.buf.is_empty() && !dropping {
-            return Ok(());
-        }
         let mut l = self.shared.lock().expect("not poisoned");
         let waker = if let SharedState::Ok {
             ready,
@@ -225,6 +232,9 @@ where
             writer_dropped,
         } = &mut l.state
         {
+            if self.buf.is_empty() && !dropping {
+                return Ok(());
+            }
             if !self.buf.is_empty() {
                 let full_buf = mem::take(&mut self.buf);
                 *ready_bytes += full_buf.len();
@@ -232,10 +242,9 @@ where
             }
             *writer_dropped = dropping;
             l.waker.take()
-        } else if !self.buf.is_empty() {
-            return Err(());
         } else {
-            return Ok(());
+            // The reader was dropped or an abort was delivered: nothing more will be consumed.
+            return Err(());
         };
         drop(l);
         if let Some(w) = waker {
